@@ -24,11 +24,11 @@
     final flush does): what a flush writes while at least one memtable is frozen and no
     segment load has lost live content is found by the first search of EVERY later store
     instance — across any number of further sessions, flushes, worker steps and crashes —
-    as long as no compaction swap deletes it. NOT proved: that it stays found by the
-    second and later searches of such an instance (true only while `loadLost` stays
-    false there; validated by the correspondence run).
+    as long as no compaction swap deletes it; and (`durable_every_search_partial`,
+    `…_worker`) by EVERY search of every later state in which `loadLost` is still false
+    and the document was not removed.
 -/
-import CometProofs.Storage.DurableOpen
+import CometProofs.Storage.DurableAll
 namespace Comet.Storage
 
 /-! ## segment identifiers are never reused (full) -/
@@ -193,6 +193,45 @@ theorem durable_partial_worker {cfg : Cfg} {s : Store} (hr : Reach cfg s)
   rw [hc2] at h2
   exact found_after_open h2 hq hrun3 sched hs
 
+/-- PARTIAL, every search. Under the hypotheses of `durable_partial` for the Flush, let `s2` be ANY
+    later state — of the same store instance or of any later one, after any continuation without a
+    compaction swap — in which the store is open, no segment load has lost live content so far
+    (`loadLost = false`) and `d` was not removed: EVERY serialised search of `s2` finds `d`. -/
+theorem durable_every_search_partial {cfg : Cfg} {s : Store} (hr : Reach cfg s) (hrun : running s = true)
+    (hl : s.gh.loadLost = false) (d : Doc) (hd : d ∈ s.gh.sess)
+    (m : Memtable) (hm : m ∈ butLast s.mts)
+    (xs : List XStep) (hx : ∀ x ∈ xs, noSwap x = true)
+    (hrun2 : running (xrun (exec s .flush).1 xs) = true)
+    (hl2 : (xrun (exec s .flush).1 xs).gh.loadLost = false)
+    (hrem : d.id ∉ (xrun (exec s .flush).1 xs).gh.removed)
+    (q : Q) (hq : Doc.matches cfg.tpl d q = true) (sched : List SegEv)
+    (hs : SerialFor (xrun (exec s .flush).1 xs) sched) :
+    found (xrun (exec s .flush).1 xs) q sched d := by
+  have hcov := (visInv_reach hr).cov hl d hd
+  have h1 := kInv_after_flush (idInv_reach hr) hrun hcov (by intro e; rw [e] at hm; cases hm)
+  have hr1 : Reach cfg (exec s .flush).1 := reach_step hr .flush
+  have h2 := kInv_xrun xs hr1 h1 hx
+  have hr2 : Reach cfg (xrun (exec s .flush).1 xs) := reach_xrun hr1 xs
+  exact found_of_kInv (visInv_reach hr2) h2 hrun2 hl2 hrem q (by rw [reach_cfg hr2]; exact hq) sched hs
+
+/-- PARTIAL, every search, for the flush worker's write (and hence Close's final flush). -/
+theorem durable_every_search_partial_worker {cfg : Cfg} {s : Store} (hr : Reach cfg s)
+    (hl : s.gh.loadLost = false) (d : Doc) (hd : d ∈ s.gh.sess)
+    (f : Bool) (m : Memtable) (rest : List Memtable) (hfw : s.fw = .todo f (m :: rest))
+    (xs : List XStep) (hx : ∀ x ∈ xs, noSwap x = true)
+    (hrun2 : running (xrun (exec s (.bg .fwrite)).1 xs) = true)
+    (hl2 : (xrun (exec s (.bg .fwrite)).1 xs).gh.loadLost = false)
+    (hrem : d.id ∉ (xrun (exec s (.bg .fwrite)).1 xs).gh.removed)
+    (q : Q) (hq : Doc.matches cfg.tpl d q = true) (sched : List SegEv)
+    (hs : SerialFor (xrun (exec s (.bg .fwrite)).1 xs) sched) :
+    found (xrun (exec s (.bg .fwrite)).1 xs) q sched d := by
+  have hcov := (visInv_reach hr).cov hl d hd
+  have h1 := kInv_after_fwrite (idInv_reach hr) hfw hcov
+  have hr1 : Reach cfg (exec s (.bg .fwrite)).1 := reach_step hr _
+  have h2 := kInv_xrun xs hr1 h1 hx
+  have hr2 : Reach cfg (xrun (exec s (.bg .fwrite)).1 xs) := reach_xrun hr1 xs
+  exact found_of_kInv (visInv_reach hr2) h2 hrun2 hl2 hrem q (by rw [reach_cfg hr2]; exact hq) sched hs
+
 /-! ## non-vacuity -/
 
 /-- the hypotheses of `durable_partial` are satisfiable: memtable limit 1, `add a; add b` (a's
@@ -207,6 +246,18 @@ example :
     running (exec (xrun (exec s .flush).1 xs) .reopen).1 = true ∧
     (exec (xrun (exec s .flush).1 xs) .reopen).1.segs.map (·.id) = [1, 2, 3] ∧
     (exec (exec (xrun (exec s .flush).1 xs) .reopen).1 (.search .vec (serialSched [3, 2, 1]))).2 = .ids [1, 2] := by
+  decide
+
+/-- … and those of `durable_every_search_partial`: the same Flush, then Close, a second session
+    with two searches, an add and an eviction in between, `loadLost` still false -/
+example :
+    let s := run (Store.init cfgTiny) [.add docA, .add docB]
+    let tail : List Step := [.reopen, .search .vec (serialSched [1, 2]), .evict,
+      .search .txt (serialSched [2, 1]), .add docC]
+    let xs : List XStep := ((closeFlushing 1) ++ tail).map XStep.step
+    let s2 := xrun (exec s .flush).1 xs
+    (∀ x ∈ xs, noSwap x = true) ∧ running s2 = true ∧ s2.gh.loadLost = false ∧ docA.id ∉ s2.gh.removed ∧
+    (exec s2 (.search .md (serialSched [1, 2]))).2 = .ids [1, 2, 3] := by
   decide
 
 /-! ## non-vacuity (identifiers) -/
